@@ -37,12 +37,18 @@ def projects(d: Path):
     (d / "up.naunet").write_text("\n".join([
         c17_globals.native_line(1, ["H", "H"], ["H2"]), c17_globals.native_line(2, ["HE+", "E-"], ["HE"]), c17_globals.native_line(3, ["C", "O"], ["CO"]),
         c17_globals.native_line(4, ["HE+", "CO"], ["C+", "O", "HE"])]) + "\n")
+    import encoders
+    R = c10_symbols.rec
+    up = [R(["H", "H2"], ["H", "H", "H"], "MA"), R(["HE+", "E-"], ["HE"], "MA"), R(["HCL"], ["#HCL"], "FREEZE"), R(["#HCL"], ["HCL"], "THERM"),
+          R(["#HCL"], ["HCL"], "DEUVCR"), R(["#HCL"], ["HCL"], "DESCR"), R(["CO"], ["#CO"], "FREEZE"), R(["#CO"], ["CO"], "THERM"), R(["H", "CL"], ["HCL"], "MA"),
+          R(["C", "O"], ["CO"], "MA"), R(["HE"], ["HE+", "E-"], "CRP")]
+    (d / "up.ucl").write_text("\n".join(encoders.uclchem(x) for x in up) + "\n")
     from naunet.species import Species
     de, dp = list(Species.default_elements), list(Species.default_pseudoelements)
     return [
         dict(name="ucl", elements=de, pseudo_elements=dp, replacement=[], allowed=[], required=["He"], files=["gas.ucl"], formats=["uclchem"],
              heating=[], cooling=[], binding=[("#CO", "1234.5"), ("#H", "650.0")], yields=[("#CO", "0.002")], shielding=[("CO", "VB88Table")],
-             rate_modifier=[("2", "1.0e-9 * zeta")], ode_modifier=[("H2", "-2.0*H2formation", ["H", "H"])], grain_model="rr07x",
+             rate_modifier=[("2", "1.0e-9 * zeta")], ode_modifier=[("H2", "-2.0*H2formation", ["H", "H"]), ("H", "0.5*k[1]", ["H2"])], grain_model="rr07x",
              surface="#", bulk="@", grain="GRAIN"),
         dict(name="kida", elements=de, pseudo_elements=dp, replacement=[], allowed=["C", "CH", "H", "C2"], required=[], files=["minimal.kida"],
              formats=["kida"], heating=[], cooling=[], binding=[], yields=[], shielding=[], rate_modifier=[("6599", "4.2e-10"), ("4894", "0.0")],
@@ -53,6 +59,10 @@ def projects(d: Path):
         dict(name="upper", elements=["E", "H", "HE", "C", "O"], pseudo_elements=["CR", "CRP", "PHOTON"], replacement=[("HE", "He"), ("E", "e")],
              allowed=[], required=[], files=["up.naunet"], formats=["naunet"], heating=[], cooling=[], binding=[], yields=[], shielding=[],
              rate_modifier=[("3", "2.0e-10 * sqrt(Tgas)")], ode_modifier=[], grain_model="", surface="#", bulk="@", grain="GRAIN"),
+        # upper-case convention with a replacement table AND per-species tables keyed by names that contain replaced elements
+        dict(name="upperice", elements=["E", "H", "HE", "C", "O", "CL"], pseudo_elements=["CR", "CRP", "PHOTON", "CRPHOT"], replacement=[("HE", "He"), ("CL", "Cl")],
+             allowed=[], required=[], files=["up.ucl"], formats=["uclchem"], heating=[], cooling=[], binding=[("#HCL", "4321.0"), ("#CO", "1234.5")],
+             yields=[("#HCL", "0.003")], shielding=[], rate_modifier=[], ode_modifier=[], grain_model="rr07x", surface="#", bulk="@", grain="GRAIN"),
     ]
 
 
@@ -95,12 +105,12 @@ def main(ctx: Ctx) -> int:
     cwd0 = os.getcwd()
     traces = []
     solvers = [("cvode", "dense"), ("cvode", "sparse"), ("odeint", "rosenbrock4")]
-    nrun = 8 if ctx.quick else 60
+    nrun = 10 if ctx.quick else 60
     for k in range(nrun):
         d = ctx.sub("proj") / str(k)
         d.mkdir()
-        base = projects(d)[k % 4]
-        solver, method = solvers[(k // 4) % 3]
+        base = projects(d)[k % 5]
+        solver, method = solvers[(k // 5) % 3]
         # --- tokens with shapes
         ids: dict = {}
 
@@ -208,13 +218,18 @@ def main(ctx: Ctx) -> int:
             kw, tl = captured.get("net"), captured.get("tl")
             if kw is not None and tl is not None:
                 sk = kw.get("species_kwargs", {})
+
+                def renamed(key):      # the per-species tables are keyed by the species' names AFTER element replacement
+                    for old, new in base["replacement"]:
+                        key = key.replace(old, new)
+                    return key
                 av = {"elements": list(kw.get("elements") or []), "pseudo_elements": list(kw.get("pseudo_elements") or []),
                       "allowed": list(kw.get("allowed_species") or []), "required": list(kw.get("required_species") or []),
                       "files": list(kw.get("filelist") or []), "formats": list(kw.get("fileformats") or []), "heating": list(kw.get("heating") or []),
                       "cooling": list(kw.get("cooling") or []), "replacement": dict(Species._replacement),
-                      "binding": dict(base["binding"]) if set(chemistrydata.user_binding_energy) >= {k2 for k2, _ in base["binding"]} and
-                      all(float(v2) == chemistrydata.user_binding_energy[k2] for k2, v2 in base["binding"]) else dict(chemistrydata.user_binding_energy),
-                      "yield": dict(base["yields"]) if all(float(v2) == chemistrydata.user_photon_yield.get(k2) for k2, v2 in base["yields"]) else
+                      "binding": dict(base["binding"]) if set(chemistrydata.user_binding_energy) >= {renamed(k2) for k2, _ in base["binding"]} and
+                      all(float(v2) == chemistrydata.user_binding_energy[renamed(k2)] for k2, v2 in base["binding"]) else dict(chemistrydata.user_binding_energy),
+                      "yield": dict(base["yields"]) if all(float(v2) == chemistrydata.user_photon_yield.get(renamed(k2)) for k2, v2 in base["yields"]) else
                       dict(chemistrydata.user_photon_yield),
                       "shielding": dict(kw.get("shielding") or {}), "rate_modifier": {str(k2): v2 for k2, v2 in (kw.get("rate_modifier") or {}).items()},
                       "surface": sk.get("surface_prefix", "<missing>"), "bulk": sk.get("bulk_prefix", "<missing>"), "grain": sk.get("grain_symbol", "<missing>"),
@@ -267,7 +282,7 @@ def main(ctx: Ctx) -> int:
         ctx.violation(f"C20|{clause}|stage={e['act']}", f"project {tr['project']} ({tr['be']}): stage {e['act']} {e.get('err', '')} {e.get('diff', '')}: {rj['clauses']}; "
                       f"cli: {tr['cli'][:300]}", {"cli": tr["cli"], "event": e, "requested": tr["req"], "clauses": rj["clauses"]})
     cov["samples"].append({"cli": traces[0]["cli"][:400], "events": [e["act"] for e in traces[0]["ev"]]})
-    cov["rule"] = "init+render runs over four project kinds x three solver choices with padded / empty tokens in list options; non-trivial = every run"
+    cov["rule"] = "init+render runs over five project kinds x three solver choices with padded / empty tokens in list options; non-trivial = every run"
     cov["exhaustive"] = False
     return finish(ctx, "model_checking", cov, [
         "token strings live in the driver; TLC sees shapes and ids (per option) and judges the four stages and the field-wise equality",
